@@ -62,7 +62,7 @@ PROPERTIES = {
         'does_not_decide': 'behavioural equivalence of configurations as a whole',
     },
     'C11': {
-        'rules': [must.rule_unlink_both, safe.rule_auth_node_free, flow.rule_flow_sync, stale.rule_admit_live, stale.rule_stale_removal, stale.rule_must_drain, stale.rule_explicit_sync, must.rule_must_invalidate, must.rule_must_expire, must.rule_scan_stops_with_cause],
+        'rules': [must.rule_unlink_both, safe.rule_auth_node_free, flow.rule_flow_sync, stale.rule_admit_live, stale.rule_stale_removal, stale.rule_must_drain, stale.rule_explicit_sync, must.rule_must_invalidate, must.rule_must_expire, must.rule_scan_stops_with_cause, safe.rule_deque_shape, safe.rule_deque_links],
         'explanation': 'Exactly-once is Rust ownership everywhere except the raw-pointer list, so the check is about that boundary: every '
                        'removal from the map unlinks and frees both deque nodes of the entry, maintenance never creates a node for an entry '
                        'that already left the map, and never removes by key alone.',
